@@ -4,7 +4,7 @@
    lemmas for the server-level clause of C30 (invalid filter: 0x8F / 0x80, nothing created, nothing
    delivered). *)
 From MV Require Import Base.Val Topics.Levels Topics.Match Hooks.Chain Auth.Acl.
-From Coq Require Import Lia.
+From Coq Require Import Lia Permutation.
 Open Scope N_scope.
 
 Lemma beq_bytes_true (a b : bytes) : beq_bytes a b = true -> a = b.
@@ -36,6 +36,24 @@ Proof.
   induction l as [|[k t'] l IH]; cbn; [discriminate|].
   destruct (a =? k) eqn:E; [intro H; injection H as ->; apply N.eqb_eq in E; subst k; left; reflexivity|].
   intro H. right. apply IH, H.
+Qed.
+
+Lemma insert_all_perm {A} (x : A) (l y : list A) : In y (insert_all x l) -> Permutation (x :: l) y.
+Proof.
+  revert y; induction l as [|z r IH]; intros y Hin; cbn in Hin.
+  - destruct Hin as [<-|[]]. apply Permutation_refl.
+  - destruct Hin as [<-|Hin]; [apply Permutation_refl|].
+    apply in_map_iff in Hin. destruct Hin as (y' & <- & Hy).
+    eapply Permutation_trans; [apply perm_swap|]. apply perm_skip, IH, Hy.
+Qed.
+
+(* every order the engine tries for the delayed-will table is a permutation of it *)
+Lemma perms_perm {A} (l p : list A) : In p (perms l) -> Permutation l p.
+Proof.
+  revert p; induction l as [|x r IH]; intros p Hin; cbn in Hin.
+  - destruct Hin as [<-|[]]. constructor.
+  - apply in_flat_map in Hin. destruct Hin as (q & Hq & Hp).
+    eapply Permutation_trans; [apply perm_skip, IH, Hq | apply insert_all_perm, Hp].
 Qed.
 
 Section Proofs.
@@ -85,6 +103,14 @@ Definition inv (st : ast) : Prop :=
 
 Lemma inv_init : inv a_init.
 Proof. repeat split; constructor. Qed.
+
+(* the order of the delayed-will table (a Go map) is immaterial to the invariant *)
+Lemma inv_delayed_perm (st : ast) (d : list (client * msg)) :
+  Permutation (a_delayed st) d -> inv st -> inv (mkAst (a_cl st) (a_subs st) (a_ret st) d).
+Proof.
+  intros Hp (Hs & Hr & Hc & Hd). repeat split; cbn; try assumption.
+  exact (Permutation_Forall Hp Hd).
+Qed.
 
 Lemma deliveries_ok_nil : deliveries_ok [].
 Proof. intros c m []. Qed.
